@@ -199,11 +199,16 @@ def impl(case):
                     r_ = next((q for q in (2, 3, 5) if nf % q == 0 and nf > q), 1)
                     fc = tuple(x.reshape(r_, nf // r_) for x in fc)
                 g.set_params(force_coords=fc)
+            import zlib
             coords = (C.mkarr(es, shape2d, "es:" + case["op"]), C.mkarr(ns, shape2d, "ns:" + case["op"]))
+            buffers = zlib.crc32(("buffers" + case["op"]).encode()) % 3 == 0
+            if buffers:      # the caller's own writable, contiguous arrays - which it goes on using after the fit (see below)
+                coords = (np.array(es, dtype=float).reshape(shape2d), np.array(ns, dtype=float).reshape(shape2d))
             d = tuple(C.mkarr(x, shape2d, f"d{i}:" + case["op"]) for i, x in enumerate(data[:ncomp]))
             if all(float(v).is_integer() for x in data[:ncomp] for v in x):
                 d = tuple(np.asarray(x).astype("int64") for x in d)      # "all finite data values": also integer-typed ones
-            import zlib
+            elif zlib.crc32(("f32" + case["op"]).encode()) % 4 == 0 and all(float(np.float32(v)) == v for x in data[:ncomp] for v in x):
+                d = tuple(np.asarray(x).astype("float32") for x in d)      # ... and single-precision ones (read from a netCDF / GeoTIFF file)
             if which != "vector" and fc is None and zlib.crc32(("hist" + case["op"]).encode()) % 3 == 0:      # (VectorSpline2D documents its force memory)
                 # history: the same object was fitted before, to FEWER points elsewhere; exactness must hold for the latest fit
                 m0 = max(3, len(es) // 2)
@@ -244,6 +249,11 @@ def impl(case):
                         g.fit((e_bad, np.ravel(coords[1])), -7.5 * np.ravel(d[0]).astype(float) + 1.0)
                     except Exception:  # noqa: BLE001
                         pass
+            if buffers:
+                # the caller shifts its origin / reads the next survey into the same arrays: the fitted model keeps the positions it was fitted on
+                coords[0][...] = coords[0] * -2.0 + 1000.0
+                coords[1][...] = coords[1] * 0.5 - 333.0
+                coords = (np.array(es, dtype=float).reshape(shape2d), np.array(ns, dtype=float).reshape(shape2d))
             pred = g.predict(coords)
             pred = (pred,) if ncomp == 1 else pred
             if any(list(p.shape) != list(shape2d) for p in pred):
